@@ -29,6 +29,7 @@ import (
 
 func init() {
 	Register(&Scenario{
+		Pools: true,
 		Name:  "long-sms",
 		Props: []string{"C06", "C07", "C14"},
 		Plan:  simple(20000, 1200000),
@@ -172,6 +173,10 @@ var fillers = map[family]string{
 	famGSM7P:  "abcdefghijklmnopqrstuvwxyz @£$_ΔΦ0123456789",
 	famLatin1: "abcdefgh éüñß€‘’ xyz",
 }
+
+// c1Controls: code points below U+0100 that Windows-1252 (the library's "Latin1") cannot represent
+// (U+0081, 8D, 8F, 90, 9D are left out: x/text maps them to themselves).
+var c1Controls = []string{"\u0085", "\u0080", "\u0093", "\u0094", "\u0082", "\u009f", "\u0099"}
 
 // genSMSText builds a text whose reference encoding under f has about target
 // units, with multi-unit characters straddling the part boundaries.
@@ -324,6 +329,18 @@ func runLongSMS(r *core.Run) {
 			target = c.Range(150, 600)
 		}
 		m.text = genSMSText(c, gf, target, r)
+		if gf == famLatin1 && m.text != "" && c.Prob(1, 5) {
+			// a text of code points < U+0100 only that the coding still cannot represent
+			rs := []rune(m.text)
+			for i, x := range rs {
+				if x > 0xff {
+					rs[i] = 'e'
+				}
+			}
+			rs[c.Intn(len(rs))] = []rune(c1Controls[c.Intn(len(c1Controls))])[0]
+			m.text = string(rs)
+			r.Probe("latin1_c1_control")
+		}
 		msgs = append(msgs, m)
 	}
 	// two vendor messages whose 16-bit references collide when their octets are ORed
